@@ -378,6 +378,9 @@ def c04(tier):
         for cfg in (sma(n), ema(n), {"k": "Alma", "n": n}):
             iv.append({"cfg": cfg, "unit": 1000, "mode": "interval", "eps": [1, 1], "float": "f64", "pairs": True,
                        "xs": extreme_runs(rnd, n, 200 if tier == "quick" else 2000), "k": 1})
+        # Ema averages every value so far: only a one-signed stream keeps zero out of that interval
+        iv.append({"cfg": ema(n), "unit": 1000, "mode": "interval", "eps": [1, 1], "float": "f64", "pairs": True,
+                   "xs": extreme_runs(rnd, n, 200 if tier == "quick" else 2000, signed=False), "k": 1})
     run.submit(p3_stream_job, "avg-interval", "C04", iv)
     return run.finish(RULE_DEF + "; for the interval/constant/monotone clauses: states in which the average reports a value")
 
@@ -890,22 +893,22 @@ def residue_runs(rnd, n, length, big=(10**8, 10**9), signed=True):
             out += [rnd.randint(1, 2000) for _ in range(rnd.randint(n + 1, 2 * n + 2))]
     return out[:length]
 
-def extreme_runs(rnd, n, length):
+def extreme_runs(rnd, n, length, signed=True):
     """the same shapes as residue_runs with inputs [m, e] = (m / unit) * 2^e: volatile values around 2^40 .. 2^60, then more than a
     window of values around 2^-40 - a dynamic range of thirty decades, beyond the 53 bits of an f64 mantissa"""
     out = []
     while len(out) < length:
-        sg = rnd.choice([-1, 1])
+        sg = rnd.choice([-1, 1]) if signed else 1
         e_big = rnd.choice([40, 50, 60])
         out += [[sg * rnd.randint(10**8, 10**9), e_big] for _ in range(rnd.randint(n + 1, 2 * n + 3))]
         c = rnd.randint(0, 2)
         if c == 0:
-            out += [[rnd.choice([0, 1, 1100, 123456]) * rnd.choice([-1, 1]), rnd.choice([0, -40])]] * rnd.randint(n + 1, 2 * n + 2)
+            out += [[rnd.choice([0, 1, 1100, 123456] if signed else [1, 1100, 123456]) * (rnd.choice([-1, 1]) if signed else 1), rnd.choice([0, -40])]] * rnd.randint(n + 1, 2 * n + 2)
         elif c == 1:
             base = rnd.choice([1, 7, 1100]); d = rnd.choice([1, 2, 3])
             out += [[base + d * i, -40] for i in range(rnd.randint(n + 2, 3 * n + 2))]
         else:
-            out += [[rnd.randint(-2000, 2000), rnd.choice([0, -40])] for _ in range(rnd.randint(n + 1, 2 * n + 2))]
+            out += [[rnd.randint(-2000 if signed else 1, 2000), rnd.choice([0, -40])] for _ in range(rnd.randint(n + 1, 2 * n + 2))]
     return out[:length]
 
 def flat_after_volatile(rnd, n, lo, hi, small=False):
